@@ -208,6 +208,10 @@ def _cmp_lin(h, a, b):
 
 
 # --------------------------------------------------------------- normaliser
+SIGNATURES: dict = {}
+METHOD_SIGNATURES: dict = {}
+
+
 class Normaliser:
     """expression -> term under an environment of local bindings.
 
@@ -367,6 +371,19 @@ class Normaliser:
             key=lambda kv: kv[0],
         ))
         f = e.func
+        # a keyword that names the next positional parameter of a known callee is read as that positional argument
+        sig = None
+        if isinstance(f, ast.Name) and f.id not in self.env:
+            sig = SIGNATURES.get(f.id)
+        elif isinstance(f, ast.Attribute) and isinstance(f.value, ast.Name) and f.value.id in ('self', 'cls'):
+            sig = METHOD_SIGNATURES.get(f.attr)
+        if sig and kwargs and not any(isinstance(a, ast.Starred) for a in e.args) and all(k != '**' for k, _ in kwargs):
+            kw = dict(kwargs)
+            lst = list(args)
+            while len(lst) < len(sig) and sig[len(lst)] in kw:
+                lst.append(kw.pop(sig[len(lst)]))
+            args = tuple(lst)
+            kwargs = tuple(sorted(kw.items(), key=lambda kv: kv[0]))
         if isinstance(f, ast.Name) and f.id not in self.env:
             if f.id in ('min', 'max') and not kwargs and len(args) >= 2:
                 return minmax(f.id, args)
